@@ -63,6 +63,9 @@ def exhaustive(ctx, out):
         rng = ctx.sub("ex")
         plists = rng.sample(plists, 60)
         grid = grid[:6]
+        # always: a phrase written twice (or three times) and a later one — the index counts written phrases, not distinct ones
+        plists += [((a, l), (a, l), (b, m)) for a, l, b, m in ((0, 1, 2, 2), (0, 0, 0, 3), (1, 2, 3, 2), (0, 2, 1, 4), (2, 1, 4, 1))]
+        plists += [((0, 1), (0, 1), (0, 1), (3, 2)), ((0, 1), (2, 1), (2, 1), (4, 1))]
     step = max(1, len(plists) // (ctx.jobs * 4))
     chunks = [(plists[i:i + step], grid) for i in range(0, len(plists), step)]
     results = [r for c in common.parallel(ctx, _chunk, chunks) for r in c]
